@@ -13,6 +13,7 @@ import (
 	"net/http"
 	"os"
 	"os/exec"
+	"runtime/debug"
 	"strings"
 	"sync"
 	"time"
@@ -38,6 +39,10 @@ type wirePorts struct {
 }
 
 func cmdWireChild(_ []string) {
+	// a runaway recursion ends in the runtime's fatal "stack overflow" at 1 GB, tens of seconds after the message that
+	// started it; with a 32 MB limit (far more than any legitimate call chain needs) the same fatal error comes at once,
+	// so the crash is seen by the probe that follows the culprit
+	debug.SetMaxStack(32 << 20)
 	n := netceptor.NewWithConsts(context.Background(), "victim", 16384, time.Hour, 0, time.Hour, 30, time.Hour)
 	ports := wirePorts{}
 	tl, err := backends.NewTCPListener("127.0.0.1:0", nil, n.Logger)
@@ -339,6 +344,19 @@ func concretise(class string, me string, seq int, rng *rand.Rand) []byte {
 		return ruJSON(me, seq, id, map[string]string{"ForwardingNode": `"victim"`})
 	case "route_other_fwd":
 		return ruJSON(me, seq, id, map[string]string{"ForwardingNode": fmt.Sprintf("%q", me+"x")})
+	case "data_ping_from_own_ping":
+		// a ping that claims to come from the node's own ping service: the answer is addressed to the answering service
+		return peer.EncodeData(5, "victim", "victim", "ping", "ping", nil)
+	case "data_ping_from_own_unreach":
+		return peer.EncodeData(5, "victim", "victim", "unreach", "ping", nil)
+	case "route_negative_selfloop":
+		return ruJSON(me, seq, id, map[string]string{"Connections": fmt.Sprintf(`{"victim":1,%q:-1}`, me)})
+	case "route_negative_edge":
+		return ruJSON(me, seq, id, map[string]string{"Connections": `{"victim":1,"good":-4}`})
+	case "route_zero_costs":
+		return ruJSON(me, seq, id, map[string]string{"Connections": fmt.Sprintf(`{"victim":1,%q:0,"zz":0}`, me)})
+	case "route_huge_costs":
+		return ruJSON(me, seq, id, map[string]string{"Connections": `{"victim":1,"hh":1.7e308,"hi":1e999}`})
 	case "route_good_fwd":
 		return ruJSON("good", seq+50, id, nil)
 	case "route_good_fwd_me":
@@ -401,6 +419,7 @@ type wireChild struct {
 	done  chan struct{}
 	stdin io.WriteCloser
 	good  *framedConn
+	gseq  int // sequence number of the well-behaved peer's own periodic updates
 }
 
 func startWireChild() (*wireChild, error) {
@@ -472,6 +491,12 @@ func (wc *wireChild) probe(timeout time.Duration) bool {
 	}
 	deadline := time.After(timeout)
 	for {
+		// like every real node, the well-behaved peer keeps sending its own routing update; the node has to take it
+		// (a session goroutine stuck in the routing code stops reading its link)
+		wc.gseq++
+		if err := wc.good.Send(ruJSON("good", 1000+wc.gseq, fmt.Sprintf("good-p%d", wc.gseq), nil)); err != nil {
+			return false
+		}
 		if err := wc.good.Send(peer.EncodeData(5, "good", "victim", "prb", "ping", nil)); err != nil {
 			return false
 		}
@@ -553,6 +578,14 @@ func cmdWire(args []string) {
 	distinct := map[string]bool{}
 	sess := 0
 	restarts := 0
+	type played struct {
+		v    wireVec
+		tr   string
+		all  [][]byte // every message of the session, handshake included
+		sent [][]byte
+		at   time.Time
+	}
+	var recent []played
 	for _, v := range run {
 		for _, tr := range strings.Split(*transports, ",") {
 			for k := 0; k < *inst; k++ {
@@ -571,28 +604,30 @@ func cmdWire(args []string) {
 					_ = c.Send(ruJSON(me, seq, me+"-hs1", nil))
 					seq++
 				}
-				var sent [][]byte
+				var sent, all [][]byte
+				if v.Start == "est" {
+					all = append(all, ruJSON(me, 1, me+"-hs0", map[string]string{"Connections": "{}"}), ruJSON(me, 2, me+"-hs1", nil))
+				}
 				for _, cl := range v.Classes {
 					b := concretise(cl, me, seq, rng)
 					seq++
 					sent = append(sent, b)
 					_ = c.Send(b)
 				}
+				all = append(all, sent...)
 				res.Evaluations++
 				distinct[fmt.Sprintf("%s|%s|%v", tr, v.Start, v.Classes)] = true
 				res.count("transport_" + tr)
+				recent = append(recent, played{v, tr, all, sent, time.Now()})
 				// the node must survive and keep serving its other peer
 				time.Sleep(15 * time.Millisecond) // let the session goroutine consume the sequence
+				probeStart := time.Now()
 				ok := wc.probe(10 * time.Second)
 				if !ok && wc.alive() {
 					ok = wc.probe(20 * time.Second) // confirm once before calling it wedged
 				}
 				replay := map[string]any{"transport": tr, "vector": v, "bytes_hex": hexAll(sent)}
-				if !wc.alive() {
-					res.violate("C07:crash:"+strings.Join(v.Classes, ","), fmt.Sprintf("node process exited after %v (start %s) on %s", v.Classes, v.Start, tr), replay)
-				} else if !ok {
-					res.violate("C07:wedged:"+strings.Join(v.Classes, ","), fmt.Sprintf("well-behaved peer's ping unanswered after %v (start %s) on %s", v.Classes, v.Start, tr), replay)
-				}
+				crashed := !wc.alive()
 				if tr == "tcp" && wc.alive() && ok {
 					want := v.Final == "closed"
 					got := c.Closed(map[bool]time.Duration{true: 5 * time.Second, false: 30 * time.Millisecond}[want])
@@ -604,10 +639,59 @@ func cmdWire(args []string) {
 					}
 				}
 				c.Close()
-				if !wc.alive() || !ok {
+				if crashed || !ok {
+					// The effect of a routing message can show up later than the probe that follows it (the table is rebuilt
+					// 100 ms after the change), so the culprit may be one of the sessions played just before this one: each
+					// recent session is played again, alone, against a fresh node, with time to take effect.
+					blamed := 0
+					for _, cand := range recent {
+						if probeStart.Sub(cand.at) > 1500*time.Millisecond {
+							continue
+						}
+						wc.stop()
+						restarts++
+						wc, err = startWireChild()
+						if err != nil {
+							res.Inconclusive = append(res.Inconclusive, "child restart: "+err.Error())
+
+							return
+						}
+						cc, err := dialTransport(cand.tr, wc.ports)
+						if err != nil {
+							res.Inconclusive = append(res.Inconclusive, "dial "+cand.tr+": "+err.Error())
+
+							return
+						}
+						for _, b := range cand.all {
+							_ = cc.Send(b)
+						}
+						time.Sleep(1200 * time.Millisecond)
+						ok2 := wc.probe(10 * time.Second)
+						if !ok2 && wc.alive() {
+							ok2 = wc.probe(20 * time.Second)
+						}
+						cc.Close()
+						rp := map[string]any{"transport": cand.tr, "vector": cand.v, "bytes_hex": hexAll(cand.sent), "confirmed_alone": true}
+						if !wc.alive() {
+							blamed++
+							res.violate("C07:crash:"+strings.Join(cand.v.Classes, ","), fmt.Sprintf("node process exited after %v (start %s) on %s", cand.v.Classes, cand.v.Start, cand.tr), rp)
+						} else if !ok2 {
+							blamed++
+							res.violate("C07:wedged:"+strings.Join(cand.v.Classes, ","), fmt.Sprintf("well-behaved peer's ping unanswered after %v (start %s) on %s", cand.v.Classes, cand.v.Start, cand.tr), rp)
+						}
+					}
+					if blamed == 0 {
+						// not reproduced by any single recent session: report what was seen
+						if crashed {
+							res.violate("C07:crash:"+strings.Join(v.Classes, ","), fmt.Sprintf("node process exited after %v (start %s) on %s (not reproduced by one session alone)", v.Classes, v.Start, tr), replay)
+						} else {
+							res.violate("C07:wedged:"+strings.Join(v.Classes, ","), fmt.Sprintf("well-behaved peer's ping unanswered after %v (start %s) on %s (not reproduced by one session alone)", v.Classes, v.Start, tr), replay)
+						}
+					}
+					recent = nil
 					wc.stop()
 					restarts++
-					if restarts > 25 {
+					if restarts > 60 {
 						res.Notes = append(res.Notes, "too many restarts; stopping early")
 
 						goto done
@@ -618,6 +702,9 @@ func cmdWire(args []string) {
 
 						return
 					}
+				}
+				if len(recent) > 64 {
+					recent = recent[len(recent)-32:]
 				}
 				if len(res.Samples) < 4 && sess%97 == 1 {
 					res.Samples = append(res.Samples, replay)
